@@ -308,7 +308,7 @@ class InterpretedFunctionsRemover(engines.engine.Engine, CompilerMixin):
                 all_fluents.append(f_fnode.fluent())
             for k in is_unknown_fluents:
                 if k in all_fluents:
-                    g_c = em.Or(goal_c, is_unknown_fluents[k])
+                    g_c = em.Or(g_c, is_unknown_fluents[k])
             new_problem.add_goal(g_c)
 
         return CompilerResult(
@@ -353,7 +353,12 @@ class InterpretedFunctionsRemover(engines.engine.Engine, CompilerMixin):
                 Optional[Effect],
             ]
         ] = []
-        for t_interval, exp in self._get_conditions(a):
+        all_conditions = list(self._get_conditions(a))
+        for t_interval, exp in all_conditions:
+            if (t_interval, em.Not(exp)) in all_conditions:
+                # contradictory conditions: the action can never be applied, whatever
+                # the values of the interpreted functions are
+                return
             all_fluent_exps = self.free_vars_extractor.get(exp)
             all_f = [f_exp.fluent() for f_exp in all_fluent_exps]
             extra_c = [hcf for f, hcf in is_unknown_fluents.items() if f in all_f]
@@ -379,11 +384,10 @@ class InterpretedFunctionsRemover(engines.engine.Engine, CompilerMixin):
                 # we need to set the tracker
                 if f not in is_unknown_fluents:
                     continue
-                reset_tracker_eff = self._create_tracking_effect(
+                for tracker_eff in self._create_tracking_effects(
                     ef, is_unknown_fluents, em
-                )
-                if reset_tracker_eff is not None:
-                    effs.append((time, reset_tracker_eff))
+                ):
+                    effs.append((time, tracker_eff))
 
         lower, upper = None, None
         if isinstance(a, up.model.DurativeAction):
@@ -501,18 +505,21 @@ class InterpretedFunctionsRemover(engines.engine.Engine, CompilerMixin):
                         n_e = eff_instance.clone()
                         n_e.set_value(exp.substitute(subs))
                         new_effs.append((t, n_e))
-                        reset_tracker_eff = self._create_tracking_effect(
+                        for tracker_eff in self._create_tracking_effects(
                             eff_instance, is_unknown_fluents, em
-                        )
-                        if reset_tracker_eff is not None:
-                            new_effs.append((t, reset_tracker_eff))
+                        ):
+                            new_effs.append((t, tracker_eff))
                     elif case == ElementKind.CONDITION:
                         new_conds.append((t, exp.substitute(subs)))
                     else:
                         raise NotImplementedError
                 else:
                     # in case we do not know the values of the if
-                    if len(l1) != 0:
+                    # (nothing to require if we have no value at all for one of the functions)
+                    if len(l1) != 0 and all(
+                        ifun_exp.interpreted_function() in if_known
+                        for ifun_exp in ifuns
+                    ):
                         new_conds.append((t, em.Not(em.And(l1))))
                     if case == ElementKind.DURATION_LOWER:
                         lower = em.Real(Fraction(1, 1))
@@ -522,7 +529,14 @@ class InterpretedFunctionsRemover(engines.engine.Engine, CompilerMixin):
                         assert eff_instance is not None
                         f = eff_instance.fluent.fluent()
                         tracking_f = em.FluentExp(is_unknown_fluents[f])
-                        n_e = Effect(tracking_f, em.TRUE(), em.TRUE())
+                        # the value is lost whenever the effect fires or might fire
+                        fires = em.Or(
+                            [eff_instance.condition]
+                            + self._unknown_trackers(
+                                eff_instance.condition, is_unknown_fluents, em
+                            )
+                        )
+                        n_e = Effect(tracking_f, em.TRUE(), fires)
                         new_effs.append((t, n_e))
             yield new_params, (lower, upper), conds + new_conds, effs + new_effs
 
@@ -657,41 +671,74 @@ class InterpretedFunctionsRemover(engines.engine.Engine, CompilerMixin):
                     if ifs:
                         found_fluents_set.add(f)
                     else:
-                        fs_e = self.free_vars_extractor.get(v)
+                        fs_e = set(self.free_vars_extractor.get(v))
+                        fs_e |= self.free_vars_extractor.get(ef.condition)
                         for f_e in fs_e:
                             if f_e.fluent() in found_fluents_set:
                                 found_fluents_set.add(f)
             len_end = len(found_fluents_set)
         return found_fluents_set
 
-    def _create_tracking_effect(
+    def _unknown_trackers(
+        self,
+        exp: FNode,
+        is_unknown_fluents: Dict[Fluent, Fluent],
+        em: ExpressionManager,
+    ) -> List[FNode]:
+        """
+        Returns the tracking fluent expressions of the fluents appearing in `exp` whose value can be unknown
+
+        :param exp: the expression to analyze
+        :param is_unknown_fluents: the dict that maps the tracking fluents to the ones they track
+        :param em: the problem's expression manager
+        :return: the list (without repetitions) of the tracking fluent expressions
+        """
+        trackers: List[FNode] = []
+        for v in self.free_vars_extractor.get(exp):
+            if v.fluent() in is_unknown_fluents:
+                t_exp = em.FluentExp(is_unknown_fluents[v.fluent()])
+                if t_exp not in trackers:
+                    trackers.append(t_exp)
+        return trackers
+
+    def _create_tracking_effects(
         self,
         ef: Effect,
         is_unknown_fluents: Dict[Fluent, Fluent],
         em: ExpressionManager,
-    ) -> Optional[Effect]:
+    ) -> List[Effect]:
         """
-        Creates, if necessary, a new tracking effect that sets the tracking fluent to unknown if at least one of the fluents in the value is unknown
+        Creates, if necessary, the tracking effects of an effect whose value is known (given the value of the fluents it reads):
+        the assigned fluent becomes unknown if the condition of the effect is unknown, and it takes the (un)knowledge of the
+        value when the effect fires.
 
         :param ef: the effect that might cause a value to become unknown
         :param is_unknown_fluents: the dict that maps the tracking fluents to the ones they track
         :param em: the problem's expression manager
-        :return: the newely created effect
+        :return: the newely created effects
         """
         f = ef.fluent.fluent()
-        f_list = []
-        for v in self.free_vars_extractor.get(ef.value):
-            if v.fluent() in is_unknown_fluents:
-                f_list.append(v.fluent())
-
-        o_e = em.Or([em.FluentExp(is_unknown_fluents[vf]) for vf in f_list])
         tracking_fluent_exp = em.FluentExp(is_unknown_fluents[f])
+        res: List[Effect] = []
 
-        if tracking_fluent_exp == o_e:
-            return None
+        cond_trackers = self._unknown_trackers(ef.condition, is_unknown_fluents, em)
+        known_cond = ef.condition
+        if cond_trackers:
+            # we do not know whether the effect fires
+            res.append(Effect(tracking_fluent_exp, em.TRUE(), em.Or(cond_trackers)))
+            known_cond = em.And(ef.condition, em.Not(em.Or(cond_trackers)))
 
-        reset_tracker_eff = Effect(tracking_fluent_exp, o_e, em.TRUE())
-        return reset_tracker_eff
+        value_trackers = self._unknown_trackers(ef.value, is_unknown_fluents, em)
+        if (not ef.is_assignment() or len(ef.fluent.args) > 0) and (
+            tracking_fluent_exp not in value_trackers
+        ):
+            # the new value depends on the old one (increase, decrease), or the tracking fluent
+            # is shared with other instances of the same fluent: it can not be reset
+            value_trackers.append(tracking_fluent_exp)
+        o_e = em.Or(value_trackers)
+        if tracking_fluent_exp != o_e:
+            res.append(Effect(tracking_fluent_exp, o_e, known_cond))
+        return res
 
     def _get_effects(self, a: Action) -> Iterable[Tuple[Optional[Timing], Effect]]:
         """
@@ -830,7 +877,8 @@ def knowledge_compatible(
 
                 if ifun.interpreted_function() not in key_list:
                     retval = False
-        else:
+        elif len(ifuns) == 1:
+            # (with more than one interpreted function we can not tell which one is unknown)
             for ifun in ifuns:
                 if (t, ifun) in kifuns:
                     retval = False
